@@ -1,6 +1,7 @@
 package level
 
 import (
+	"fmt"
 	"io"
 	"strconv"
 
@@ -306,6 +307,9 @@ func (l *linearPalette[T]) ReadFrom(r io.Reader) (n int64, err error) {
 	if n, err = size.ReadFrom(r); err != nil {
 		return
 	}
+	if size < 0 {
+		return n, fmt.Errorf("level: palette size is negative: %d", size)
+	}
 	if int(size) > cap(l.values) {
 		l.values = make([]T, size)
 	} else {
@@ -369,6 +373,9 @@ func (h *hashPalette[T]) ReadFrom(r io.Reader) (n int64, err error) {
 	var size, value pk.VarInt
 	if n, err = size.ReadFrom(r); err != nil {
 		return
+	}
+	if size < 0 {
+		return n, fmt.Errorf("level: palette size is negative: %d", size)
 	}
 	if int(size) > cap(h.values) {
 		h.values = make([]T, size)
